@@ -8,7 +8,7 @@ DIR = os.path.join(os.path.dirname(os.path.dirname(os.path.abspath(__file__))), 
 COUNTS_NOTE = "derived keys (DERIVED) are computed from fixtures, not stored"
 COUNTS = {"p256": 6, "p384": 3, "p521": 3, "ed25519": 4, "rsa": 6, "p256lz": 2, "p521lz": 1, "secp256k1": 1, "rsa3": 1,
           "rsa2047": 1, "rsa1024": 1, "rsa3072": 1, "brainpoolp256r1": 1,
-          "rsa4096": 1}
+          "rsa4096": 1, "rsa4104": 1, "rsa8192": 1}
 CURVES = {"p256": ec.SECP256R1, "p384": ec.SECP384R1, "p521": ec.SECP521R1, "secp256k1": ec.SECP256K1,
           "brainpoolp256r1": ec.BrainpoolP256R1}
 
@@ -16,7 +16,7 @@ CURVES = {"p256": ec.SECP256R1, "p384": ec.SECP384R1, "p521": ec.SECP521R1, "sec
 def _gen(kind):
     if kind == "rsa":
         return rsa.generate_private_key(public_exponent=65537, key_size=2048)
-    if kind in ("rsa2047", "rsa1024", "rsa3072", "rsa4096"):   # other modulus sizes, incl. one that is not a multiple of 8 bits
+    if kind in ("rsa2047", "rsa1024", "rsa3072", "rsa4096", "rsa4104", "rsa8192"):   # other modulus sizes, incl. one that is not a multiple of 8 bits
         return rsa.generate_private_key(public_exponent=65537, key_size=int(kind[3:]))
     if kind == "rsa3":
         return rsa.generate_private_key(public_exponent=3, key_size=2048)
